@@ -100,7 +100,7 @@ class _Continue(Exception):
     pass
 
 
-BUILTINS = {'dict', 'range', 'enumerate', 'str', 'int', 'len', 'abs', 'isinstance', 'tuple', 'bool', 'ValueError', 'Exception',
+BUILTINS = {'issubclass', 'dict', 'range', 'enumerate', 'str', 'int', 'len', 'abs', 'isinstance', 'tuple', 'bool', 'ValueError', 'Exception',
             'KeyError', 'NotImplementedError', 'TypeError', 'list', 'sorted', 'set', 'min', 'max', 'all', 'any', 'zip', 'map',
             'print', 'repr', 'ConnectionError', 'IndexError', 'AssertionError', 'sum', 'reversed', 'frozenset', 'getattr', 'hasattr',
             'setattr', 'RuntimeError', 'OSError', 'id', 'iter', 'next', 'divmod', 'round', 'type', 'object', 'AttributeError', 'StopIteration',
@@ -114,7 +114,7 @@ PURE_MODULES = {'bisect', 'math', 'operator', 'string'}
 def _has_internal(vals) -> bool:
     """Is one of the values an object of the folder's own representation (not a plain Python value a stdlib function understands)?"""
     for v in vals:
-        if isinstance(v, (DV, EV, ClsRef, Bound, OrdInt, IntervalInt, OpaqueText)):
+        if isinstance(v, (DV, EV, ClsRef, Bound, OrdInt, IntervalInt, OpaqueText, Opaque)):
             return True
         if isinstance(v, tuple) and v and isinstance(v[0], str) and v[0] in ('lambda', 'closure', 'func', 'pyfunc', 'builtin', 'strmethod', 'pymodule', 'extern'):
             return True
@@ -202,6 +202,32 @@ class OrdInt:
     __add__ = __radd__ = __sub__ = __rsub__ = __mul__ = __rmul__ = __floordiv__ = __rfloordiv__ = __truediv__ = __rtruediv__ = _no
     __mod__ = __rmod__ = __divmod__ = __rdivmod__ = __pow__ = __rpow__ = __lshift__ = __rlshift__ = __rshift__ = __rrshift__ = _no
     __and__ = __rand__ = __or__ = __ror__ = __xor__ = __rxor__ = _no
+
+
+class Opaque:
+    """A value of the subject that must not matter: it can be stored, copied and passed on; every operation that would look at it
+    (comparison with anything but itself, arithmetic, hashing, formatting, truth value) leaves the abstraction (Unsupported)."""
+    __slots__ = ('tag',)
+
+    def __init__(self, tag):
+        self.tag = tag
+
+    def __repr__(self):
+        return f'<opaque {self.tag}>'
+
+    def __eq__(self, o):
+        if o is self:
+            return True
+        raise Unsupported(f'an opaque value ({self.tag}) is compared')
+
+    def __ne__(self, o):
+        return not self.__eq__(o)
+
+    def _no(self, *a, **k):
+        raise Unsupported(f'an opaque value ({self.tag}) is consulted')
+
+    __hash__ = __str__ = __format__ = __bool__ = __lt__ = __le__ = __gt__ = __ge__ = __index__ = __int__ = __float__ = __neg__ = __abs__ = _no
+    __add__ = __radd__ = __sub__ = __rsub__ = __mul__ = __rmul__ = __floordiv__ = __rfloordiv__ = __mod__ = __rmod__ = __len__ = __iter__ = __getitem__ = _no
 
 
 class OpaqueText:
@@ -1165,7 +1191,7 @@ class Folder:
             self._exit_mgr(mgr, None)
 
     def _exit_mgr(self, mgr, exc):
-        a = [None, None, None] if exc is None else [exc.kind, exc, None]
+        a = [None, None, None] if exc is None else [('builtin', exc.kind) if hasattr(__import__('builtins'), exc.kind) else exc.kind, exc, None]
         if isinstance(mgr, DV):
             return self._getattr_call(mgr, '__exit__', a, {})
         return mgr.__exit__(*a)
@@ -1856,11 +1882,38 @@ class Folder:
                 if isinstance(args[1], LazyIter):
                     return LazyIter(x for x in self._iterate(args[1]) if self._truth(fn_(x) if fn_ is not None else x))
                 return [x for x in args[1] if self._truth(fn_(x) if fn_ is not None else x)]
-            if n == 'isinstance':
+            if n in ('isinstance', 'issubclass'):
                 v, c = args
-                if isinstance(c, ClsRef):
-                    return isinstance(v, (EV, DV)) and c.cls in self.repo.mro(v.cls)
-                raise Unsupported('isinstance target')
+                cs = list(c) if isinstance(c, tuple) and not (len(c) == 2 and c[0] == 'builtin') else [c]
+                import builtins as _b
+                out_ = False
+                for c1 in cs:
+                    if isinstance(c1, ClsRef):
+                        if n == 'isinstance':
+                            out_ = out_ or (isinstance(v, (EV, DV)) and c1.cls in self.repo.mro(v.cls))
+                        else:
+                            out_ = out_ or (isinstance(v, ClsRef) and c1.cls in self.repo.mro(v.cls))
+                        continue
+                    if isinstance(c1, tuple) and len(c1) == 2 and c1[0] == 'builtin' and isinstance(getattr(_b, c1[1], None), type):
+                        bt = getattr(_b, c1[1])
+                        if n == 'isinstance' and isinstance(v, FoldRaise):
+                            kt = getattr(_b, v.kind.split('.')[-1], None)
+                            out_ = out_ or (isinstance(kt, type) and issubclass(kt, bt)) or (not isinstance(kt, type) and bt in (Exception, BaseException))
+                        elif n == 'issubclass':
+                            kn = v[1] if isinstance(v, tuple) and len(v) == 2 and v[0] == 'builtin' else v if isinstance(v, str) else None
+                            if kn is None:
+                                raise Unsupported('issubclass of ' + type(v).__name__)
+                            kt = getattr(_b, kn.split('.')[-1], None)
+                            out_ = out_ or (isinstance(kt, type) and issubclass(kt, bt)) or (not isinstance(kt, type) and bt in (Exception, BaseException))
+                        elif isinstance(v, (EV, DV, ClsRef, Bound)):
+                            out_ = out_ or bt is object
+                        elif getattr(v, '_sa_native', False) or isinstance(v, (OrdInt, IntervalInt, OpaqueText, Opaque)):
+                            raise Unsupported(f'isinstance of an analyser object against {c1[1]}')
+                        else:
+                            out_ = out_ or isinstance(v, bt)
+                        continue
+                    raise Unsupported(f'{n} target {c1!r}'[:80])
+                return out_
             raise Unsupported('builtin ' + n)
         raise Unsupported('call of ' + (ast.unparse(e.func) if e is not None else repr(f)[:60]))
 
